@@ -59,7 +59,7 @@ class Query:
     in_u32() are symbolic.  witnesses: names of WITNESS_AT points that must be reachable (twin run)."""
 
     def __init__(self, name, defs=(), witnesses=(), unwind=2, timeout=900, est_gb=3, hardcap=40,
-                 extra_cbmc=(), sample=None, profile=None, required_sat=()):
+                 extra_cbmc=(), sample=None, profile=None, required_sat=(), harness_unwind=18):
         self.name = name
         self.defs = list(defs)
         self.witnesses = list(witnesses)
@@ -69,7 +69,7 @@ class Query:
         self.hardcap = hardcap
         self.extra_cbmc = list(extra_cbmc)
         self.sample = sample
-        self.harness_unwind = 18
+        self.harness_unwind = harness_unwind
         self.required_sat = list(required_sat)   # witnesses whose UNREACHABILITY is itself a violation (existential claims)
         self.profile = profile      # concrete VIN vectors of this shape: per-loop bounds are learnt from them (then checked)
 
@@ -77,7 +77,7 @@ class Query:
 class Unit:
     def __init__(self, name, harness_cpp, main_c, repo_srcs=(), caps=None, cxx_defs=(), queries=(),
                  corpus=(), wrap=(), model_srcs=(), extra_clang=(), native_cxx=(), hints=None,
-                 private_public=False, native_link=(), inc=(), leak_on_unwind=False):
+                 private_public=False, native_link=(), inc=(), leak_on_unwind=False, extra_tus=(), obligations=()):
         self.name = name
         self.harness_cpp = harness_cpp      # path relative to /verif
         self.main_c = main_c                # path relative to /verif
@@ -94,6 +94,8 @@ class Unit:
         self.private_public = private_public
         self.native_link = list(native_link)
         self.leak_on_unwind = leak_on_unwind
+        self.extra_tus = list(extra_tus)      # [(path relative to /verif, [flags])]: further C++ TUs of the harness, each with its own -D flags
+        self.obligations = list(obligations)  # [(name, path relative to /verif, [flags])]: must compile (static_asserts); a compile failure is the violation
         self.inc = [x for d_ in inc for x in ('-I', os.path.join(VERIF, d_))]
         self.dir = None
         self.functions = []
@@ -107,13 +109,17 @@ def build_model(u, work):
     flags = CLANG_FLAGS + ['-I', VSTD, '-I', os.path.join(REPO, 'include'), '-I', TOOLS, '-DNITRO_VERIF'] + \
         caps_defs(u.caps) + u.cxx_defs + u.extra_clang + u.inc
     srcs = [os.path.join(REPO, s) for s in u.repo_srcs] + [os.path.join(VSTD, 'vstd_rt.cpp')] + \
-        [os.path.join(VERIF, s) for s in u.model_srcs] + [os.path.join(VERIF, u.harness_cpp)]
+        [os.path.join(VERIF, s) for s in u.model_srcs] + [os.path.join(VERIF, u.harness_cpp)] + \
+        [(os.path.join(VERIF, p_), list(f_)) for p_, f_ in u.extra_tus]
     lls = []
 
     def one(i_src):
         i, src = i_src
+        xf = []
+        if isinstance(src, tuple):
+            src, xf = src
         out = os.path.join(d, 'm%d_%s.ll' % (i, os.path.basename(src).replace('.cpp', '')))
-        fl = list(flags)
+        fl = list(flags) + xf
         if src.endswith(os.path.basename(u.harness_cpp)) and u.private_public:
             fl += ['-Dprivate=public', '-Dprotected=public']
         sh(['clang++-14'] + fl + [src, '-o', out])
@@ -131,8 +137,11 @@ def build_model(u, work):
     try:
         def one0(i_src):
             i, src = i_src
+            xf = []
+            if isinstance(src, tuple):
+                src, xf = src
             out = os.path.join(d, 'z%d.ll' % i)
-            fl = [f for f in flags if f != '-O1'] + ['-O0']
+            fl = [f for f in flags if f != '-O1'] + ['-O0'] + xf
             if src.endswith(os.path.basename(u.harness_cpp)) and u.private_public:
                 fl += ['-Dprivate=public', '-Dprotected=public']
             sh(['clang++-14'] + fl + [src, '-o', out])
@@ -191,12 +200,16 @@ def build_native(u, d, kind, main_defs, tag):
         with _lock(u.name + 'real'):
             if not os.path.exists(objs + '.done'):
                 os.makedirs(objs, exist_ok=True)
-                srcs = [os.path.join(REPO, s) for s in u.repo_srcs] + [os.path.join(VERIF, u.harness_cpp)]
+                srcs = [os.path.join(REPO, s) for s in u.repo_srcs] + [os.path.join(VERIF, u.harness_cpp)] + \
+                    [(os.path.join(VERIF, p_), list(f_)) for p_, f_ in u.extra_tus]
 
                 def one(i_src):
                     i, src = i_src
+                    xf = []
+                    if isinstance(src, tuple):
+                        src, xf = src
                     fl = ['-std=c++17', '-O1', '-g', '-w', '-I', os.path.join(REPO, 'include'), '-I', TOOLS] + san + \
-                        u.cxx_defs_native() + u.native_cxx + u.inc
+                        u.cxx_defs_native() + u.native_cxx + u.inc + xf
                     if src.endswith(os.path.basename(u.harness_cpp)) and u.private_public:
                         fl += ['-fno-access-control']
                     sh(['g++'] + fl + ['-c', src, '-o', os.path.join(objs, 'o%d.o' % i)])
@@ -427,11 +440,15 @@ def profile_unit(u, q, defs, vins, work, unwind=40, workers=None):
         cmd = ['cbmc', os.path.join(u.dir, 'all.c'), os.path.join(TOOLS, 'ir2c_rt.c'), os.path.join(VERIF, u.main_c),
                '-I', TOOLS, '-I', u.dir] + u.inc + d2 + ['--object-bits', '12', '--no-malloc-may-fail', '--drop-unused-functions',
                                                 '--no-standard-checks', '--unwind', str(unwind), '--verbosity', '9']
-        p = subprocess.run(cmd, stdout=subprocess.PIPE, stderr=subprocess.STDOUT, text=True, errors='replace', timeout=600)
+        try:
+            p = subprocess.run(cmd, stdout=subprocess.PIPE, stderr=subprocess.STDOUT, text=True, errors='replace', timeout=180)
+            out = p.stdout
+        except subprocess.TimeoutExpired as e:
+            out = e.stdout if isinstance(e.stdout, str) else (e.stdout or b'').decode(errors='replace')
         m = {}
-        for mm in re.finditer(r'Unwinding loop (\S+) iteration (\d+)', p.stdout):
+        for mm in re.finditer(r'Unwinding loop (\S+) iteration (\d+)', out):
             m[mm.group(1)] = max(m.get(mm.group(1), 0), int(mm.group(2)))
-        return m, 'VERIFICATION' in p.stdout
+        return m, 'VERIFICATION' in out
     with concurrent.futures.ThreadPoolExecutor(workers or min(NCPU, 12)) as ex:
         for m, ok in ex.map(one, enumerate(vins)):
             if not ok:
@@ -496,6 +513,23 @@ class Runner:
         findings = load_findings(self.prop)
         active = [f for f in findings if f.get('status') == 'finding']
         kf_defs = ['-D%s' % f['define'] for f in active if f.get('define')]
+        # 0. compile-time obligations (static_asserts about types): decided by the compiler, reported like any other violation
+        for u in self.units:
+            for name, path, flags in u.obligations:
+                cmd = ['g++', '-std=c++17', '-fsyntax-only', '-w', '-I', os.path.join(REPO, 'include'), '-I', TOOLS] + u.inc + list(flags) + [os.path.join(VERIF, path)]
+                p = sh(cmd, check=False)
+                self.extra_cov.setdefault('compile_obligations', []).append({'name': name, 'holds': p.returncode == 0})
+                if p.returncode != 0:
+                    os.makedirs(os.path.join(VERIF, 'evidence', 'replay'), exist_ok=True)
+                    rp = os.path.join(VERIF, 'evidence', 'replay', '%s_obligation_%s.json' % (self.prop, re.sub(r'\W', '_', name)))
+                    json.dump({'property': self.prop, 'kind': 'compile-time obligation failed', 'name': name, 'command': cmd, 'diagnostics': p.stdout[-4000:],
+                               'unit': u.name, 'defs': [], 'vin': [], 'assertion': name}, open(rp, 'w'), indent=1)
+                    self.say('[%s]   compile-time obligation failed: %s\n%s' % (self.prop, name, p.stdout[-1500:]))
+                    self.violations.append(rp)
+        if self.violations:
+            for v in self.violations:
+                self.say('VIOLATION property=%s replay=%s' % (self.prop, v))
+            return 1
         # 1. build all units (model)
         with concurrent.futures.ThreadPoolExecutor(4) as ex:
             list(ex.map(lambda u: build_model(u, work), self.units))
